@@ -81,14 +81,44 @@ def site_obligations(prog: Program, res: Result, rule: str, need_bare: bool) -> 
                 res.undecided(rule, fn.loc(s.node), fn.fq, text, "subject of the rewrite is not a variable")
                 continue
             kinds = P.subject_kinds(prog, fn, s.subject, at=s.node)
+            if s.kind == "unbind" and P.underscore_only(prog, fn, s):
+                # a binding statement replaced by its value; the selecting template pins every bound name to the literal
+                # '_': the name at stake is `_` itself (a real variable in gettext-style modules) -> `'_' not in preserve`
+                test = ast.parse("'_' in preserve", mode="eval").body
+                good = pa.reached(s.node) and pa.holds_at(s.node, lambda w: pa.formula(test, w, False))[0]
+                res.decide(good, rule, fn.loc(s.node), fn.fq, text,
+                           "the statement binds `_` only; reached only under `'_' not in preserve`" if good else
+                           "the statement binds `_` and is unbound without testing `'_' in preserve`: a module whose public surface has a variable named _ "
+                           "(`_ = gettext.gettext`) loses it")
+                continue
             if kinds is not None and not (kinds & P.DEF_KINDS) and "str" not in kinds:
                 res.ok(rule, fn.loc(s.node), fn.fq, text, f"subject kind {sorted(kinds)} is not a definition or a name (use-site rewrite)", trivial=True)
                 continue
             if s.kind in ("unbind", "delete", "rewrite") and kinds is not None and not (kinds & {"FunctionDef", "AsyncFunctionDef", "ClassDef", "Name"}):
                 # statements: only a site if they bind a name
                 if P.underscore_only(prog, fn, s):
-                    res.ok(rule, fn.loc(s.node), fn.fq, text,
-                           "exempt: the selecting template pins every bound name to the literal '_' (documented convention: variables named _ are deleted)", trivial=True)
+                    # the selecting template pins every bound name to the literal '_': the name at stake is `_` itself
+                    # (a real variable in gettext-style modules), so the site needs `'_' not in preserve`
+                    test = ast.parse("'_' in preserve", mode="eval").body
+                    good = pa.reached(s.node) and pa.holds_at(s.node, lambda w: pa.formula(test, w, False))[0]
+                    res.decide(good, rule, fn.loc(s.node), fn.fq, text,
+                               "the statement binds `_` only; reached only under `'_' not in preserve`" if good else
+                               "the statement binds `_` and is unbound without testing `'_' in preserve`: a module whose public surface has a variable named _ "
+                               "(`_ = gettext.gettext`) loses it")
+                    continue
+            if s.kind in ("delete", "unbind"):
+                # a STATEMENT deleted because it has no effect: core.has_side_effect calls every definition and every name
+                # store an effect (C16 R16.3) - except bindings of `_`; with that hole closed by a test of '_' against
+                # preserve the statement binds nothing that could be preserved
+                worlds = pa.worlds_at(s.node)
+                subj = s.subject
+                effect_free = bool(worlds) and all(any(f[0] == "lit" and not f[2] and f"has_side_effect({subj}" in P.plain_text(f[1]) for f in w.facts) for w in worlds)
+                if effect_free:
+                    from ..pathcond import show
+                    closed = all(any("in('_', preserve" in P.plain_text(show(f)) for f in w.facts) for w in worlds)
+                    res.decide(closed, rule, fn.loc(s.node), fn.fq, text,
+                               "deleted only when it has no effect (binds nothing but possibly `_`) and `_` was tested against preserve" if closed else
+                               "deleted when core.has_side_effect says 'no effect', which lets bindings of `_` through; `'_' in preserve` is never consulted")
                     continue
             bare, anyform, why = P.guard_forms(pa, s)
             good = bare if need_bare else anyform
